@@ -307,8 +307,15 @@ func (t *Collection) MaxItem(withValue bool) (*Item, error) {
 // For concurrent users, only the single mutator thread should call
 // EvictSomeItems(), making it serialized with mutations.
 func (t *Collection) EvictSomeItems() (numEvicted uint64) {
+	numEvicted, _ = t.evictSomeItems()
+	return numEvicted
+}
+
+// evictSomeItems is EvictSomeItems() that also reports a file error met
+// while walking down the tree.
+func (t *Collection) evictSomeItems() (numEvicted uint64, err error) {
 	if t.store.readOnly {
-		return 0
+		return 0, nil
 	}
 	i, err := t.store.walk(t, false, func(n *node) (*nodeLoc, bool) {
 		if j := n.Evict(); j != nil {
@@ -327,7 +334,7 @@ func (t *Collection) EvictSomeItems() (numEvicted uint64) {
 	if i != nil && err != nil {
 		t.store.ItemDecRef(t, i)
 	}
-	return numEvicted
+	return numEvicted, err
 }
 
 // ItemVisitor is a function type for things that can visit an item
